@@ -4,6 +4,7 @@ import (
 	"context"
 	"io"
 	"net"
+	"strings"
 	"time"
 
 	"github.com/pkg/errors"
@@ -51,10 +52,16 @@ func (t *tcpConn) Read(b []byte) (int, error) {
 	verifYield("read", nil)
 	if t.timeout > 0 {
 		err := t.conn.SetReadDeadline(time.Now().Add(t.timeout))
-		check(err)
+		if err != nil {
+			// the connection was closed under the reader's feet (Disconnect / Reconnect from another goroutine)
+			if errors.Is(err, net.ErrClosed) {
+				return 0, context.Canceled
+			}
+			return 0, errors.Wrap(err, "setting read deadline")
+		}
 	}
 
-	n, err := t.cancelReader.Read(b)
+	n, err := t.readCancelable(b)
 	if err != nil {
 		if e, ok := err.(*net.OpError); ok {
 			if e.Err.Error() == "i/o timeout" {
@@ -70,4 +77,22 @@ func (t *tcpConn) Read(b []byte) (int, error) {
 		}
 	}
 	return n, nil
+}
+
+// readCancelable reads through the cancelable reader. That reader closes its channels as soon as the context
+// is cancelled, and a Read which starts at that moment panics with "send on closed channel": Disconnect or
+// Reconnect called from another goroutine than the one that reads (PHONE_MIGRATE does that) ended the program
+// when it hit the gap between two reads. The cancellation is what the caller asked for: it is reported as such.
+func (t *tcpConn) readCancelable(b []byte) (n int, err error) {
+	defer func() {
+		if r := recover(); r != nil {
+			if e, ok := r.(error); ok && strings.Contains(e.Error(), "send on closed channel") {
+				n, err = 0, context.Canceled
+				return
+			}
+			panic(r)
+		}
+	}()
+
+	return t.cancelReader.Read(b)
 }
